@@ -318,6 +318,114 @@ pub fn locals_cases() -> Vec<Case> {
     out
 }
 
+// ---- block-type census --------------------------------------------------------------------
+// every (params, results) over small type lists x {block, loop, if/else}, the sequence type made
+// through the public constructor `InstrSeqType::new`: the emitted construct must carry exactly
+// that signature (inline forms where the binary format has them, a type index otherwise)
+
+const BT_LISTS: [&[ValType]; 4] = [&[], &[ValType::I32], &[ValType::I64, ValType::I32], &[ValType::F32]];
+
+fn push_consts(s: &mut InstrSeqBuilder, tys: &[ValType]) {
+    for t in tys {
+        match t {
+            ValType::I32 => s.i32_const(1),
+            ValType::I64 => s.i64_const(2),
+            ValType::F32 => s.f32_const(3.0),
+            _ => s.f64_const(4.0),
+        };
+    }
+}
+
+fn build_block_type(pi: usize, ri: usize, kind: u8) -> Vec<u8> {
+    let (params, results) = (BT_LISTS[pi], BT_LISTS[ri]);
+    let mut m = Module::default();
+    let mut fb = FunctionBuilder::new(&mut m.types, &[], &[]);
+    let bt = InstrSeqType::new(&mut m.types, params, results);
+    {
+        let mut s = fb.func_body();
+        s.i32_const(777).drop();
+        push_consts(&mut s, params);
+        let inner = |b: &mut InstrSeqBuilder| {
+            for _ in params {
+                b.drop();
+            }
+            push_consts(b, results);
+        };
+        match kind {
+            0 => {
+                s.block(bt, inner);
+            }
+            1 => {
+                s.loop_(bt, inner);
+            }
+            _ => {
+                s.i32_const(1).if_else(bt, inner, inner);
+            }
+        }
+        for _ in results {
+            s.drop();
+        }
+    }
+    let f = fb.finish(vec![], &mut m.funcs);
+    m.exports.add("subject", f);
+    m.emit_wasm()
+}
+
+fn vt_of(t: &ValType) -> wmodel::VT {
+    match t {
+        ValType::I32 => wmodel::VT::I32,
+        ValType::I64 => wmodel::VT::I64,
+        ValType::F32 => wmodel::VT::F32,
+        _ => wmodel::VT::F64,
+    }
+}
+
+pub fn check_block_type_case(c: &Case) -> Vec<Violation> {
+    let (pi, ri, kind) = (c.cfg["params"].as_u64().unwrap_or(0) as usize, c.cfg["results"].as_u64().unwrap_or(0) as usize, c.cfg["kind"].as_u64().unwrap_or(0) as u8);
+    let mut v = vec![];
+    let wasm = match catch_unwind(AssertUnwindSafe(|| build_block_type(pi, ri, kind))) {
+        Ok(x) => x,
+        Err(p) => {
+            v.push(Violation::new("C15", format!("builder-block-type-panic:{}", crate::pipe::norm_panic(&panic_msg(p))), format!("building / emitting a construct of type {:?} -> {:?} panicked", BT_LISTS[pi], BT_LISTS[ri]), c));
+            return v;
+        }
+    };
+    let want = wmodel::FuncSig { params: BT_LISTS[pi].iter().map(vt_of).collect(), results: BT_LISTS[ri].iter().map(vt_of).collect() };
+    let w = match wmodel::decode(&wasm) {
+        Ok(w) => w,
+        Err(_) => return v,
+    };
+    let body = match w.exports.iter().find(|e| e.name == "subject").and_then(|e| w.funcs.get(e.index as usize)).and_then(|f| f.body.as_ref()) {
+        Some(b) => b,
+        None => return v,
+    };
+    let op = body.ops.iter().map(|(o, _)| o).find(|o| matches!(o.name, "Block" | "Loop" | "If"));
+    let got = match op.and_then(|o| o.imms.first()) {
+        Some(Imm::Block(wmodel::BlockTy::Empty)) => Some(wmodel::FuncSig { params: vec![], results: vec![] }),
+        Some(Imm::Block(wmodel::BlockTy::Val(t))) => Some(wmodel::FuncSig { params: vec![], results: vec![t.clone()] }),
+        Some(Imm::Block(wmodel::BlockTy::Func(i))) => w.types.get(*i as usize).cloned().flatten(),
+        _ => None,
+    };
+    if got.as_ref() != Some(&want) {
+        v.push(Violation::new("C15", "builder-block-type-wrong", format!("construct built with sequence type {:?}: the emitted construct has signature {:?}", want, got), c));
+    } else if let Err(e) = wmodel::validate214(&wasm, wmodel::FeatureSet::DEFAULT) {
+        v.push(Violation::new("C15", "builder-block-type-invalid", format!("construct of type {:?}: the emitted module does not validate: {}", want, e), c));
+    }
+    v
+}
+
+pub fn block_type_cases() -> Vec<Case> {
+    let mut out = vec![];
+    for pi in 0..BT_LISTS.len() {
+        for ri in 0..BT_LISTS.len() {
+            for kind in 0..3u8 {
+                out.push(Case { family: "builder-block-types".into(), coords: format!("{:?} -> {:?} kind={}", BT_LISTS[pi], BT_LISTS[ri], kind), wasm: vec![], cfg: json!({"block_type_census": true, "params": pi, "results": ri, "kind": kind}) });
+            }
+        }
+    }
+    out
+}
+
 pub fn cases() -> Vec<Case> {
     let mut out = vec![];
     for kind in KINDS {
